@@ -200,10 +200,8 @@ func (c *compiler) evalFunctionLiteral(node *ast.FunctionLiteral) (interface{}, 
 
 func (c *compiler) evalPrefixExpression(node *ast.PrefixExpression) (interface{}, error) {
 	res, err := c.evalExpression(node.Right)
-	if err != nil {
-		if _, ok := err.(*ErrUnknownIdentifier); !ok {
-			return nil, err
-		}
+	if err != nil && !isUnknownIdentifier(err, node.Right) {
+		return nil, err
 	}
 
 	switch node.Operator {
@@ -216,10 +214,8 @@ func (c *compiler) evalPrefixExpression(node *ast.PrefixExpression) (interface{}
 
 func (c *compiler) evalIfExpression(node *ast.IfExpression) (interface{}, error) {
 	con, err := c.evalExpression(node.Condition)
-	if err != nil {
-		if _, ok := err.(*ErrUnknownIdentifier); !ok {
-			return nil, err
-		}
+	if err != nil && !isUnknownIdentifier(err, node.Condition) {
+		return nil, err
 	}
 
 	if c.isTruthy(con) {
@@ -233,10 +229,8 @@ func (c *compiler) evalElseAndElseIfExpressions(node *ast.IfExpression) (interfa
 	var r interface{}
 	for _, eiNode := range node.ElseIf {
 		eiCon, err := c.evalExpression(eiNode.Condition)
-		if err != nil {
-			if _, ok := err.(*ErrUnknownIdentifier); !ok {
-				return nil, err
-			}
+		if err != nil && !isUnknownIdentifier(err, eiNode.Condition) {
+			return nil, err
 		}
 
 		if c.isTruthy(eiCon) {
@@ -249,6 +243,18 @@ func (c *compiler) evalElseAndElseIfExpressions(node *ast.IfExpression) (interfa
 	}
 
 	return r, nil
+}
+
+// isUnknownIdentifier reports whether err is the "unknown identifier" fault of the
+// expression itself being an identifier that is not bound; such a fault counts as nil in
+// conditions and as an operand of !, ==, !=, && and ||. An unknown identifier buried inside
+// a larger expression (an argument, an index, ...) is an ordinary error.
+func isUnknownIdentifier(err error, node ast.Expression) bool {
+	if _, ok := err.(*ErrUnknownIdentifier); !ok {
+		return false
+	}
+	_, ok := node.(*ast.Identifier)
+	return ok
 }
 
 func (c *compiler) isTruthy(i interface{}) bool {
@@ -473,8 +479,8 @@ func (c *compiler) evalIdentifier(node *ast.Identifier) (interface{}, error) {
 func (c *compiler) evalInfixExpression(node *ast.InfixExpression) (interface{}, error) {
 	// an unknown identifier counts as nil for '==', '!=', and the logical operators;
 	// every other error fails the expression
-	tolerated := func(err error) bool {
-		if _, ok := err.(*ErrUnknownIdentifier); !ok {
+	tolerated := func(err error, operand ast.Expression) bool {
+		if !isUnknownIdentifier(err, operand) {
 			return false
 		}
 		return node.Operator == "==" || node.Operator == "!=" ||
@@ -482,7 +488,7 @@ func (c *compiler) evalInfixExpression(node *ast.InfixExpression) (interface{}, 
 	}
 
 	lres, err := c.evalExpression(node.Left)
-	if err != nil && !tolerated(err) {
+	if err != nil && !tolerated(err, node.Left) {
 		return nil, err
 	}
 
@@ -494,7 +500,7 @@ func (c *compiler) evalInfixExpression(node *ast.InfixExpression) (interface{}, 
 	}
 
 	rres, err := c.evalExpression(node.Right)
-	if err != nil && !tolerated(err) {
+	if err != nil && !tolerated(err, node.Right) {
 		return nil, err
 	}
 
